@@ -303,6 +303,13 @@ public:
     size_type
     size() const
     {
+        // The list head is created when it's first needed, and
+        // without it the list is empty...
+        if (m_listHead == 0)
+        {
+            return 0;
+        }
+
         size_type size = 0;
         const_iterator item = begin();
         while (item != end())
@@ -316,7 +323,7 @@ public:
     bool
     empty() const
     {
-        return (begin() == end()) != 0;
+        return m_listHead == 0 || (begin() == end()) != 0;
     }
 
     void 
@@ -411,10 +418,16 @@ public:
     void
     clear()
     {
-        iterator pos = begin();
-        while (pos != end())
+        // Don't create the list head just to find out that
+        // there's nothing to do.  This is called from destructors
+        // and other places that must not fail.
+        if (m_listHead != 0)
         {
-            freeNode(pos++.node());
+            iterator pos = begin();
+            while (pos != end())
+            {
+                freeNode(pos++.node());
+            }
         }
     }
 
